@@ -29,9 +29,11 @@ ASSUMPTIONS = [
     'SQLite files; the router answers allow_migrate / db_for_* from a fixed '
     'table; django_evolution and contenttypes live on both databases',
 ]
-FLOORS = {'quick': {'nontrivial': 10, 'db_runs': 60,
+FLOORS = {'quick': {'handover_runs': 8, 
+                    'nontrivial': 10, 'db_runs': 60,
                     'sql_evolution_values_checked': 1},
-          'thorough': {'nontrivial': 150, 'db_runs': 900,
+          'thorough': {'handover_runs': 40, 
+                       'nontrivial': 150, 'db_runs': 900,
                        'sql_evolution_values_checked': 30}}
 SIZES = {'quick': 24, 'thorough': 300}
 HANDOVERS = {'quick': 8, 'thorough': 48}
